@@ -4,6 +4,7 @@ package sctp
 
 import (
 	"errors"
+	"io"
 	"time"
 )
 
@@ -534,3 +535,63 @@ func vh_C08_L7_shutdown_chunk_acknowledges_partially_reliable_data() {
 func vh_C08_L8_shutdown_during_a_transport_write_is_served() {
 	vh_C20_L10_call_during_a_transport_write_is_served()
 }
+
+// C08.L9: a repeated SHUTDOWN is answered again. In SHUTDOWN-ACK-SENT (the first SHUTDOWN ACK
+// was lost) the peer's retransmitted SHUTDOWN arrives: the writer is woken, the SHUTDOWN ACK
+// goes out again and T2 is running afterwards, so the exchange cannot get stuck with both
+// sides waiting.
+func vh_C08_L9_repeated_shutdown_is_answered_again() {
+	a, _ := vNewAssoc()
+	a.setState(shutdownAckSent)
+	vassert(a.t2Shutdown.start(a.rtoMgr.getRTO()), "T2 running")
+	_ = vWriterWake(a)
+	vassert(vDeliver(a, &chunkShutdown{cumulativeTSNAck: a.cumulativeTSNAckPoint}) == nil, "SHUTDOWN ok")
+	n := 0
+	for _, raw := range vWriterWake(a) {
+		for _, c := range vDecode(raw).chunks {
+			if _, ok := c.(*chunkShutdownAck); ok {
+				n++
+			}
+		}
+	}
+	vassert(n == 1, "the SHUTDOWN ACK is sent again at once (the writer was woken)")
+	vassert(a.t2Shutdown.isRunning(), "and T2 is running")
+	vcover("end")
+}
+
+// C08.L10: a stream the peer opened with its last messages can still be accepted after the
+// association has closed. Data arrives on a new stream (it is queued for AcceptStream), then
+// the shutdown completes before the application has accepted it: AcceptStream hands the
+// stream out first - its messages are readable - and reports end-of-file only afterwards.
+func vh_C08_L10_stream_queued_for_accept_survives_the_shutdown() {
+	a, b := vPair(vAssocOpts{pickTSN: true})
+	s, err := a.OpenStream(1, PayloadTypeWebRTCBinary)
+	vassert(err == nil, "open stream")
+	m := nondetBytes(1)
+	_, werr := s.WriteSCTP(m, PayloadTypeWebRTCBinary)
+	vassert(werr == nil, "write accepted")
+	_ = a.Shutdown(vNewClosedCtx())
+	net := &vNet{a: a, b: b, dropAt: -1, dupAt: -1}
+	net.settle(20, 4)
+	vassert(vIsShut(a) && vIsShut(b), "both sides end closed")
+	close(b.acceptCh) // the read loop has ended: on its way out it closes the accept queue ...
+	close(b.readLoopCloseCh) // ... and says so
+	vMustNotBlock("AcceptStream returns")
+	st, aerr := b.AcceptStream()
+	vMayBlock()
+	vassert(aerr == nil && st != nil, "the stream queued before the closure is still handed out")
+	if st != nil {
+		buf := make([]byte, 4)
+		n, _, rerr := st.reassemblyQueue.read(buf)
+		vassert(rerr == nil && n == 1 && buf[0] == m[0], "with the message the sender's Shutdown had waited for")
+	}
+	vMustNotBlock("AcceptStream returns")
+	_, aerr2 := b.AcceptStream()
+	vMayBlock()
+	vassert(aerr2 == io.EOF, "then end-of-file")
+	vcover("end")
+}
+
+// C08.L11: timer callbacks run without the timer's own mutex (a T2 expiry colliding with a
+// handler that stops T2 under the association lock cannot deadlock) (= C19.L3).
+func vh_C08_L11_timer_callbacks_run_unlocked() { vh_C19_L3_retry_law() }
